@@ -59,8 +59,14 @@ def cases(r, tier):
                                                                "line1\nline2", "tab\there", "cr\rhere", "\\u{41}", "\\x41", "\\065", "%d %s", "]]", "--", "[[", "\\z"]
     for s in singles:
         out.append(("string", string_prog(s)))
-    for _ in range(40 if tier == "quick" else 600):
-        s = "".join(r.choice(["a", "\\", "n", "\n", "'", "%", "ö", " ", "q", "0", "x", "\t", "]", "-"]) for _ in range(r.randint(1, 12)))
+    # every control character directly followed by digits (decimal escapes absorb following digits),
+    # by a backslash, and at the end of the literal
+    for b in list(range(1, 32)) + [127]:
+        for tail in ["7", "99", "0", "\\", "a"]:
+            out.append(("string", string_prog(chr(b) + tail)))
+    pool = [chr(b) for b in range(1, 32)] + ["a", "\\", "n", "\n", "'", "%", "ö", " ", "q", "0", "7", "9", "x", "\t", "]", "-", "u", "{", "}", "z", "\r"]
+    for _ in range(120 if tier == "quick" else 3000):
+        s = "".join(r.choice(pool) for _ in range(r.randint(1, 12)))
         out.append(("string", string_prog(s)))
     for lit in ["0", "9223372036854775807", "1e999", "1e308", "1e-999", "0.1", "1.", ".5", "123456789012345678", "1e16", "1e15",
                 "0.000001", "100000000000000000000.0", "1e+5", "2e-3", "00012", "1.0"]:
